@@ -23,3 +23,5 @@ json.dump(m,open(f"/verif/seeded/{id}/meta.json","w"),indent=1)
 PY
 git -C /repo worktree remove --force $wt && echo "kept $id, worktree removed"
 rm -rf /verif/target/rel-$(python3 -c "import hashlib;print(hashlib.sha1(b'$wt').hexdigest()[:8])") /verif/target/shadow-$(python3 -c "import hashlib;print(hashlib.sha1(b'$wt').hexdigest()[:8])")
+h=$(python3 -c "import hashlib;print(hashlib.sha1(b'$wt').hexdigest()[:8])")
+rm -rf /verif/target/scratch-$h /verif/target/miri-$h
